@@ -19,7 +19,7 @@ RULE = ('cases = (source list, source kind, condition kind+stream, list of next(
         'iterators returned by split) run against aiuti.itertools.split with logging sources/conditions; '
         'exhaustive layer: every source length 0..L, every condition stream (callable results / iterable of '
         'length len-1..len+1), every interleaving of len+3 next() calls (observed after each call, so all '
-        'prefixes are covered; sources and iterable conditions rotate over one-shot iterator / re-iterable object / real list subclass, so empty (falsy) lists occur); random layer: longer sources, non-bool truthy/falsy condition values, '
+        'prefixes are covered; sources and iterable conditions rotate over one-shot iterator / re-iterable object / real list subclass, so empty (falsy) lists occur; one-shot iterators with an under- and an over-estimating __length_hint__ for exhaust and split); random layer: longer sources, non-bool truthy/falsy condition values, '
         'abandoning one side.  non-trivial = both sides are advanced, something is yielded and len>=2 '
         '(decided by Case_C18.nontrivial inside Coq); distinct = distinct (case, trace) pairs among those')
 EXHAUSTIVE_NOTE = 'exhaustive layer enumerates all op interleavings for sources of length <= L (L=3 quick, 4 thorough)'
@@ -90,8 +90,23 @@ class LogList(list):
         return LogIter(list.copy(self), self._log, self._stops)
 
 
-KINDS = {'iterator': LogIter, 'iterable': LogIterable, 'list': LogList}
-KIND_NAMES = ['iterator', 'iterable', 'list']
+class HintUnder(LogIter):
+    """one-shot iterator whose __length_hint__ UNDER-estimates (legal: PEP 424 hints are estimates)"""
+
+    def __length_hint__(self):
+        return max(0, (len(self.items) - self.pos) // 2)
+
+
+class HintOver(LogIter):
+    """one-shot iterator whose __length_hint__ OVER-estimates"""
+
+    def __length_hint__(self):
+        return len(self.items) - self.pos + 2
+
+
+KINDS = {'iterator': LogIter, 'iterable': LogIterable, 'list': LogList, 'hint_under': HintUnder, 'hint_over': HintOver}
+KIND_NAMES = ['iterator', 'iterable', 'list']          # rotation of the exhaustive split layer
+HINT_KINDS = ['hint_under', 'hint_over']
 
 
 def truth_obj(b, k, fancy):
@@ -179,6 +194,7 @@ def corpus():
         mk([1, 0, 2, 1], [False, False, True, True], 'LRRL', True, fancy=True),
         mk([1, 0, 2], [], 'LRLR', False, src='list', csrc='list'),                    # empty (falsy) list as condition
         mk([], [True], 'LR', False, src='list', csrc='list'),                         # empty (falsy) list as source
+        dict(kind='exhaust', n=5, src='hint_under'),                                  # under-estimating __length_hint__
         dict(kind='exhaust', n=3, src='iterator'),
         dict(kind='exhaust', n=0, src='iterable'),
     ]
@@ -202,6 +218,12 @@ def gen_exhaustive(tier, seed):
         out.append(dict(kind='exhaust', n=n, src='iterator'))
         out.append(dict(kind='exhaust', n=n, src='iterable'))
         out.append(dict(kind='exhaust', n=n, src='list'))
+        for hk in HINT_KINDS:                       # inexact length hints must not change what exhaust consumes
+            out.append(dict(kind='exhaust', n=n, src=hk))
+    for n in (0, 1, 2, 3):                          # ... nor what split yields
+        for hk in HINT_KINDS:
+            out.append(mk(VALS[:n], [True, False, True][:n], 'LR' * (n + 1), False, src=hk, csrc=hk))
+            out.append(mk(VALS[:n], [False, True, True][:n], 'RLL' * (n + 1), True, src=hk))
     return out
 
 
@@ -225,8 +247,8 @@ def gen_random(tier, seed):
             ops = a * (n + 1) + ('R' if a == 'L' else 'L') * k
         else:
             ops = ''.join(rnd.choice('LR') for _ in range(k + 2))
-        out.append(mk(xs, cs, ops, cal, src=rnd.choice(KIND_NAMES),
-                      csrc=rnd.choice(KIND_NAMES), fancy=rnd.random() < 0.5))
+        out.append(mk(xs, cs, ops, cal, src=rnd.choice(KIND_NAMES + HINT_KINDS),
+                      csrc=rnd.choice(KIND_NAMES + HINT_KINDS), fancy=rnd.random() < 0.5))
     return out
 
 
